@@ -219,7 +219,7 @@ def probe_standin(prop, unit_name, scratch, reason, always=False, by_file=False)
     if fn is None or not os.path.exists(os.path.join(probes.PROBE_DIR, fn)):
         return None, None
     found, pout = probes.run_probe(prop, "", scratch, only_file=fn)
-    ob = {"engine": "probe-bounded", "unit": unit_name, "name": "probe:%s" % fn[:-3], "fn": unit_name, "kind": "bounded",
+    ob = {"engine": "probe-bounded", "unit": unit_name, "name": "probe:%s" % fn[:-3], "fn": "[bounded probe %s on %s]" % (fn[:-3], probes.probe_file(fn)), "kind": "bounded",
           "bound": probes.probe_bound(fn), "status": "undecided" if found is None else ("failed" if found else "discharged"),
           "backend": "rustc test on the real code", "text": "bounded stand-in for unit %s (%s)" % (unit_name, reason)}
     mc = re.search(r"PROBE cases=(\d+)(?: nontrivial=(\d+))?", pout or "")
